@@ -188,6 +188,20 @@ def base_queries(tier, rnd):
             out.append(dict(TWO, cond=[op] + list(tri)))
     out.append(dict(TWO, cond=["and", ["or", SX[0], SY[0]], ["or", SX[1], SY[1]]]))
     out.append(dict(TWO, cond=None))
+    # three variables, partial selections, chains whose inner disjunction does not mention the outer variable
+    THREE = dict(pools={"X": 2, "Y": 2, "W": 2}, classes={"W": "Other"}, refs={"X": "Y"}, vars={"x": "X", "y": "Y", "w": "W"})
+    SW = ["cmp", "gt", ["a", "w", "a"], ["lit", 0]]
+    XW = ["cmp", "lt", ["a", "x", "c"], ["a", "w", "c"]]
+    YW = ["cmp", "eq", ["a", "y", "b"], ["a", "w", "b"]]
+    sels3 = [[["v", "x"]], [["v", "x"], ["v", "y"]], [["v", "x"], ["v", "y"], ["v", "w"]], [["v", "w"], ["v", "x"]]]
+    tris = [(SW, ["or", SX[0], J[3]], XW), (XW, ["or", SX[0], SY[0]], YW), (J[0], YW, SW), (SW, J[3], ["or", XW, SY[0]])]
+    if tier == "quick":
+        sels3, tris = sels3[:2], tris[:2]
+    for sel in sels3:
+        for tri in tris:
+            out.append(dict(THREE, select=sel, cond=["and"] + list(tri)))
+        if tier != "quick":
+            out.append(dict(THREE, select=sel, cond=["or", ["and", J[0], YW], SW]))
     return out
 
 
